@@ -749,3 +749,27 @@ def owned_events(cx):
         fn.ob('OWNED', 'the file is mapped read-only', ok, m, key='mode|%s' % sym.show(sym.norm(kwarg(m, 'dtype'))))
     cx.floor('OWNED', n, 3, 'definitions of the returned event matrix')
     return fn
+
+
+SAMPLE_ITEMS = [
+    ('the file is parsed anew for every sample', 'F = FCSFile(infile)'),
+    ('the decoded events are made writeable in place', 'F.data.flags.writeable = True'),
+    ('the sample is a view of the decoded events themselves (no conversion, no other array)', 'OBJ = F.data.view(cls)'),
+]
+
+
+def sample_events(cx, rule='FORMULA'):
+    """FCSData.__new__ hands out the decoder's own array: parsed from the named file in this call, viewed as the sample
+    class, nothing in between (a cast, a cache, another array would be a new definition of one of the roles)."""
+    fn = Fn(cx, 'io.FCSData.__new__')
+    b = inventory(fn, rule, SAMPLE_ITEMS, {'F': 'F', 'OBJ': 'OBJ'})
+    obj = b.get('OBJ')
+    if obj and obj[0] == 'var':
+        # private metadata attributes stored on the sample (decided by ATTRSET / the C17 inventories) cannot touch its
+        # events; `obj.dtype = ..`, `obj.shape = ..`, item stores and re-bindings can, and stay undocumented here
+        for st in fn.stmts(ast.Assign):
+            t = st.targets[0]
+            if len(st.targets) == 1 and isinstance(t, ast.Attribute) and isinstance(t.value, ast.Name) and t.value.id == obj[1] \
+                    and t.attr.startswith('_') and not t.attr.startswith('__'):
+                cx.documented.add(id(st))
+    return fn
